@@ -233,6 +233,17 @@ pub fn run_gimli<S: UnwindContextStorage<usize>>(case: &CfiCase, built: &BuiltFr
             loop {
                 if let Some(k) = stop_after {
                     if rows.len() >= k {
+                        // the row last returned is also available with the context's lifetime
+                        match (table.into_current_row(), rows.last()) {
+                            (Some(r), Some(last)) => {
+                                let cur = mrow_of(r)?;
+                                if &cur != last {
+                                    fail!("c06/into_current_row/differs", "after {} rows: into_current_row gives {:?}, the row last returned was {:?}", rows.len(), cur, last);
+                                }
+                            }
+                            (None, None) => {}
+                            (g, w) => fail!("c06/into_current_row/presence", "after {} rows: into_current_row is {} but a row was {} returned", rows.len(), if g.is_some() { "Some" } else { "None" }, if w.is_some() { "" } else { "never" }),
+                        }
                         return Ok(GRun { rows, end: Ok(()) });
                     }
                 }
@@ -360,6 +371,19 @@ pub fn check_case(case: &CfiCase, cx: &mut Ctx, storages: bool) -> R {
         Err(e1) => {
             let m2 = model_run(case, &built, 4, 192, false);
             compare(&g, &m2, "heap").map_err(|_| e1)?;
+        }
+    }
+    // stopping after k rows: the same first k rows, and the row last returned is what into_current_row hands out
+    if storages {
+        for k in [0usize, 1, g.rows.len() / 2, g.rows.len()] {
+            if k > g.rows.len() {
+                continue;
+            }
+            let mut ctx2: UnwindContext<usize> = UnwindContext::new();
+            let part = run_gimli(case, &built, &mut ctx2, Some(k))?;
+            if part.end.is_ok() {
+                ensure_eq!(&part.rows[..], &g.rows[..k.min(g.rows.len())], "c06/partial/rows", "stopping after {} rows", k);
+            }
         }
     }
     // structural clauses on whatever rows were delivered
